@@ -114,6 +114,8 @@ StepLoad ==
   /\ E.op = "load"
   /\ n' = rd.n /\ phase' = "loaded" /\ UNCHANGED <<lvl, doc, y, n2, y2, inj>>
   /\ IF ~InLanguage(doc) THEN fails' = fails /\ drift' = drift \cup Tag({"document_outside_modelled_language"})
+     \* a terminal with rectangles is outside C05's universe (a terminal is a point): the load is not judged
+     ELSE IF ~PointTerminals(doc) THEN fails' = fails /\ drift' = drift \cup Tag({"terminal_with_rectangles_not_judged_by_C05"})
      ELSE IF E.acc = 0
        THEN fails' = fails \cup (IF wf THEN Tag({"loads"}) ELSE {}) /\ drift' = drift
      ELSE IF ~wf
@@ -150,6 +152,7 @@ StepDefect ==
   /\ E.op = "defect"
   /\ doc' = d /\ inj' = E.patch /\ phase' = "defect" /\ UNCHANGED <<lvl, n, y, n2, y2>>
   /\ IF ~InLanguage(d) THEN fails' = fails /\ drift' = drift \cup Tag({"document_outside_modelled_language"})
+     ELSE IF ~PointTerminals(d) THEN fails' = fails /\ drift' = drift \cup Tag({"terminal_with_rectangles_not_judged_by_C05"})
      ELSE IF WellFormed(d) \/ Read(d).ok THEN fails' = fails /\ drift' = drift \cup Tag({"patch_is_not_a_defect"})
      ELSE /\ fails' = fails \cup (IF E.acc = 1 THEN Tag({"rejects"}) ELSE {})
           /\ drift' = drift \cup (IF E.patch \in Inject(T.doc) THEN {} ELSE Tag({"patch_not_from_Inject"}))
@@ -171,7 +174,7 @@ TraceSpec == TraceInit /\ [][TraceNext]_tvars
 (***************************************************************************)
 InjectNext == /\ l = 1 /\ l' = 2
               /\ PrintT(ToJson([tag |-> "PATCHES", id |-> T.id,
-                                lang |-> B(InLanguage(T.doc)), wf |-> B(WellFormed(T.doc)), ok |-> B(Read(T.doc).ok),
+                                lang |-> B(InLanguage(T.doc) /\ PointTerminals(T.doc)), wf |-> B(WellFormed(T.doc)), ok |-> B(Read(T.doc).ok),
                                 patches |-> SetToSeq(Inject(T.doc))]))
               /\ UNCHANGED <<vars, tid, fails, drift>>
 InjectSpec == TraceInit /\ [][InjectNext]_tvars
